@@ -136,6 +136,8 @@ func Expected(c Call) (val any, isErr bool, code int, msg string) {
 		return nil, true, 400 + int(c.Tag)%100, fmt.Sprintf("TEST_ERROR_%d", c.Tag)
 	case rpcsrv.KVecIntBig:
 		return rpcsrv.BigVec(c.Tag), false, 0, ""
+	case rpcsrv.KVecIntSame:
+		return rpcsrv.SameVec(c.Tag), false, 0, ""
 	}
 	return nil, false, 0, ""
 }
@@ -144,7 +146,7 @@ func Expected(c Call) (val any, isErr bool, code int, msg string) {
 func DoCall(m *mtproto.MTProto, c Call) (any, error) {
 	req := &VReq{Tag: c.Tag, Kind: int32(c.Kind)}
 	switch c.Kind {
-	case rpcsrv.KVecInt, rpcsrv.KVecIntBig:
+	case rpcsrv.KVecInt, rpcsrv.KVecIntBig, rpcsrv.KVecIntSame:
 		return m.MakeRequestWithHintToDecoder(req, reflect.TypeOf([]int32{}))
 	case rpcsrv.KVecObj:
 		return m.MakeRequestWithHintToDecoder(req, reflect.TypeOf([]*VRes{}))
